@@ -219,7 +219,48 @@ def _m_slice_len(eng, fn, bb, t, env, state, args, where):
     return [(("i", len(b)), env, state)]
 
 
+def _m_all(eng, fn, bb, t, env, state, args, where):
+    """Iterator::all over a constant byte slice: the closure is invoked element by element, in order, and the
+    iteration stops at the first element for which it answers false"""
+    a = args[0] if args else TOP
+    f = args[1] if len(args) > 1 else TOP
+    if a[0] != "ref":
+        return [(TOP, eng.havoc(env, args), state)]
+    cur = eng.read(env, a[1], a[2])
+    if cur[0] != "sliceiter":
+        return [(TOP, eng.havoc(env, args), state)]
+    _, b, pos0, enumd = cur
+    out = []
+    work = [(pos0, env, state)]
+    while work:
+        pos, e1, s1 = work.pop()
+        if pos >= len(b):
+            out.append((("b", True, (), ()), eng.write(e1, a[1], a[2], ("sliceiter", b, pos, enumd)), s1))
+            continue
+        item = ("cell", ("byte", 1 << b[pos]))
+        if enumd:
+            item = ("t", (("i", pos), item))
+        for r, e2, s2 in eng.invoke(f, [item], e1, s1, where):
+            outcomes = []
+            if r[0] == "b" and r[1] is not None:
+                outcomes.append((r[1], e2, s2))
+            elif r[0] == "b":
+                for truth in (True, False):
+                    r2 = eng.apply_refs(e2, s2, r[2] if truth else r[3], where)
+                    if r2 is not None:
+                        outcomes.append((truth, r2[0], r2[1]))
+            else:
+                outcomes = [(True, e2, s2), (False, e2, s2)]
+            for truth, e3, s3 in outcomes:
+                if truth:
+                    work.append((pos + 1, e3, s3))
+                else:
+                    out.append((("b", False, (), ()), eng.write(e3, a[1], a[2], ("sliceiter", b, pos + 1, enumd)), s3))
+    return out
+
+
 ITER_MODELS = {
+    "core::iter::traits::iterator::Iterator::all": _m_all,
     "core::slice::iter": _m_slice_iter,
     "core::slice::<impl [T]>::iter": _m_slice_iter,
     "core::iter::traits::iterator::Iterator::enumerate": _m_enumerate,
